@@ -3,13 +3,14 @@
    tree whose function parameters and filter operands carry no accessor flag (acc_clean — what
    updateAccessorMode guarantees: C12_parsed_trees_acc_clean proves it for EVERY tree the parser model
    returns, by the stack-effect checker whose item types carry the flag discipline; the harness also
-   evaluates it on every parsed tree and checks that erasing the flags of the accessor-mode tree gives the
-   plain-mode tree — that last link between the two parses is not a theorem), erasing
+   evaluates it on every parsed tree; and C12_modes_parse_alike proves that Parse in plain mode returns exactly the
+   flag-erased tree of Parse in accessor mode, or the same error — the 46 actions commute with flag erasure,
+   EraseParse.v), erasing
    every accessor flag selects the same cursors in the same order: one result per value, each yielding
    that value, hence the same failures; function parameters and filter operands are the very same
    subtrees in both modes (erase is the identity on them), so user functions and filters see the same
    plain values. *)
-From JP Require Import Peg Grammar Text Tree Actions Eval WF Spec AccDefs Refine1 SpecAcc StackRules.
+From JP Require Import Peg Grammar Text Tree Actions Eval WF Spec AccDefs Refine1 SpecAcc StackRules EraseParse.
 
 Theorem C12_parity : forall ffun afun regex_match t doc, acc_clean t = true ->
   map plain (spec_results ffun afun regex_match (erase t) doc) = map plain (spec_results ffun afun regex_match t doc).
@@ -39,3 +40,22 @@ Theorem C12_parity_of_parsed_trees : forall cfg parse_float regex_ok ffun afun r
   map plain (spec_results ffun afun regex_match (erase t) doc) = map plain (spec_results ffun afun regex_match t doc).
 Proof. intros. apply parity_values. eapply parse_builds_acc_clean. eassumption. Qed.
 Print Assumptions C12_parity_of_parsed_trees.
+
+(* the two modes parse alike: same acceptance, same error, trees equal up to the accessor flags *)
+Theorem C12_modes_parse_alike : forall cfg parse_float regex_ok g input,
+  parse_with (plain_cfg cfg) parse_float regex_ok g input = erase_result (parse_with cfg parse_float regex_ok g input).
+Proof. exact parse_erase. Qed.
+Print Assumptions C12_modes_parse_alike.
+
+(* from the path text: whatever is parsed in accessor mode, plain mode parses to the erased tree and selects the
+   same values in the same order on every document *)
+Theorem C12_end_to_end : forall cfg parse_float regex_ok ffun afun regex_match input t,
+  parse_with cfg parse_float regex_ok jsonpath_grammar input = ParseOk t ->
+  parse_with (plain_cfg cfg) parse_float regex_ok jsonpath_grammar input = ParseOk (erase t) /\
+  forall doc, map plain (spec_results ffun afun regex_match (erase t) doc) = map plain (spec_results ffun afun regex_match t doc).
+Proof.
+  intros cfg pf rx ffun afun rm input t H. split.
+  - rewrite parse_erase, H. reflexivity.
+  - intros doc. apply parity_values. eapply parse_builds_acc_clean. exact H.
+Qed.
+Print Assumptions C12_end_to_end.
